@@ -173,3 +173,53 @@ func ZZ_C02_UnauthenticatedStreamSilent() {
 	verifAssert(zzStream(st).ops == 0, "nothing is read from or written to the stream")
 	verifCover("declined")
 }
+
+// Histories of authentication attempts on one connection: however many were
+// rejected before, every further rejected attempt (and every other request) is
+// still answered by the masquerade handler alone - same writer, same request,
+// once, nothing written by the server, connection not torn down - and an
+// accepted attempt afterwards is still answered 233.
+//
+//verif:harness kind=api replay=interp unwind=200 preempt=0 bound=requests<=6(quick)/9(thorough),verdicts:any
+func ZZ_C02_RepeatedRejections() {
+	n := 6
+	if verifThorough() {
+		n = 9
+	}
+	auth := &zzAuth{}
+	for i := 0; i < n; i++ {
+		auth.verdicts = append(auth.verdicts, verifBool("accept"))
+	}
+	masq := &zzMasq{}
+	conn := &quic.Conn{}
+	cfg := &Config{Authenticator: auth, EventLogger: &zzEvents{}, DisableUDP: true, MasqHandler: masq, Outbound: zzNoOutbound{}}
+	h := newH3sHandler(cfg, conn)
+	accepted := false
+	for i := 0; i < n; i++ {
+		w := &zzRW{}
+		var r *http.Request
+		isAuth := verifBool("authShaped")
+		if isAuth {
+			r = zzAuthRequest("POST", "hysteria", "/auth", "cred", "100", true)
+		} else {
+			r = zzAuthRequest("GET", "example.com", "/", "", "", false)
+		}
+		before := masq.calls
+		evaluated := len(auth.calls)
+		h.ServeHTTP(w, r)
+		if isAuth && !accepted && auth.verdicts[evaluated] {
+			accepted = true
+		}
+		if isAuth && accepted {
+			verifAssert(w.status == 233 && masq.calls == before, "an accepted (or repeated) authentication answers 233")
+			verifCover("accepted-after-rejections")
+			continue
+		}
+		verifAssert(w.untouched(), "the server itself writes nothing, however many attempts were rejected before")
+		verifAssert(masq.calls == before+1 && masq.w == http.ResponseWriter(w) && masq.r == r, "the masquerade handler answers, exactly once, with the same writer and request")
+		verifAssert(!zzConn(conn).closed, "and the connection is not torn down")
+		if i >= 4 {
+			verifCover("fifth-rejection")
+		}
+	}
+}
